@@ -58,7 +58,17 @@ mod proofs {
     }
     #[kani::proof]
     #[kani::unwind(6)]
+    fn next_key_len_3() {
+        check_next::<3>();
+    }
+    #[kani::proof]
+    #[kani::unwind(6)]
     fn next_key_len_4() {
         check_next::<4>();
+    }
+    #[kani::proof]
+    #[kani::unwind(10)]
+    fn next_key_len_6() {
+        check_next::<6>();
     }
 }
